@@ -134,6 +134,7 @@ def register(reg):
 
 
     register_order(reg)
+    register_order_steps(reg)
 
 
 KEYS_C19 = ["PandasModel.clean_copy", "PandasModel._table_step"]
@@ -245,3 +246,138 @@ def Ty_py_none():
 
 
 KEYS_C18 = ["SQLModel.order_to_near_sql"]
+
+
+# ====================================================================== C18: the executors' order_rows steps (arguments handed to sort / head)
+def register_order_steps(reg):
+    import z3
+    from pyvc.api import Contract, T, VList, VNone, VOpt, VPy, VScalar, VSet, VStr, VTuple, fresh_name
+    from contracts.vr_common import COLS, NODE, register_classes
+    register_classes(reg)
+    FRAME = T.opaque("Frame")
+    PM = T.obj("PandasModel")
+    reg.add_class("PolarsModel", {}, file="data_algebra/polars_model.py")
+    PL = T.obj("PolarsModel")
+    Unsupported = __import__("pyvc.engine", fromlist=["Unsupported"]).Unsupported
+
+    def nrows(S):
+        return S.func("frame_nrows", S.sort("Frame"), z3.IntSort())
+
+    def srcf(S):
+        return S.func("evaluated_source_frame", z3.IntSort(), S.sort("Frame"))
+
+    def sortf(S):
+        return S.func("frame_sorted", S.sort("Frame"), z3.ArraySort(z3.IntSort(), S.Atom), z3.IntSort(), z3.ArraySort(z3.IntSort(), z3.BoolSort()), z3.IntSort(), S.sort("Frame"))
+
+    def headf(S):
+        return S.func("frame_head", S.sort("Frame"), z3.IntSort(), S.sort("Frame"))
+
+    def reset(S):
+        return S.func("frame_reset_index_drop", S.sort("Frame"), S.sort("Frame"))
+
+    reg.opaque_attrs[("Frame", "shape")] = lambda eng, st, o: VTuple([VScalar(nrows(eng.S)(o.z), T.int), VScalar(z3.Int(fresh_name("ncols")), T.int)])
+    reg.opaque_attrs[("Frame", "iloc")] = lambda eng, st, o: VPy(("frameiloc", o))
+
+    def iloc_subscript(eng, st, cont, key, node):
+        if isinstance(cont, VPy) and isinstance(cont.obj, tuple) and cont.obj[0] == "frameiloc" and isinstance(key, VTuple) and len(key.items) == 2:
+            rng = key.items[0]
+            if isinstance(rng, VPy) and isinstance(rng.obj, tuple) and rng.obj[0] == "range":
+                eng.registry.note("assumed pandas contract: df.iloc[range(n), :] is the first n rows (a function of (df, n))")
+                return [(st, VScalar(headf(eng.S)(cont.obj[1].z, rng.obj[1].z), FRAME))]
+        return None
+
+    reg.subscript_hooks = getattr(reg, "subscript_hooks", []) + [iloc_subscript]
+
+    def src_apply(eng, st, argmap, node):
+        eng.registry.note("assumed: evaluating the source sub-pipeline yields a frame owned by the executor (a function of the source node)")
+        return [(st, VScalar(srcf(eng.S)(argmap["s"].z), FRAME))]
+
+    reg.add(Contract(key="PandasModel._eval_value_source", cls="PandasModel", params={"self": PM, "s": NODE}, assumed=True, apply=src_apply))
+    reg.add(Contract(key="PolarsModel._compose_polars_ops", cls="PolarsModel", params={"self": PL, "s": NODE}, assumed=True, apply=src_apply))
+    reg.add(Contract(key="PandasModel.drop_indices", cls="PandasModel", params={"self": PM}, assumed=True, apply=lambda eng, st, argmap, node: [(st, VNone())]))
+
+    def sort_values_apply(eng, st, argmap, node):
+        S = eng.S
+        by = eng.list_of(argmap["by"], st, node)
+        asc = eng.list_of(argmap["ascending"], st, node)
+        ii, ip = argmap.get("ignore_index"), argmap.get("inplace")
+        if not (isinstance(ip, VPy) and ip.obj is False):
+            raise Unsupported("sort_values without inplace=False", node)
+        eng.registry.note("assumed pandas contract: df.sort_values(by, ascending, inplace=False) is a function of (df, by, ascending)")
+        return [(st, VScalar(sortf(S)(argmap["self"].z, by.arr, by.n, asc.arr, asc.n), FRAME))]
+
+    reg.opaque_methods[("Frame", "sort_values")] = Contract(key="Frame.sort_values", params={"by": COLS, "ascending": T.list(T.bool)}, assumed=True, apply=sort_values_apply)
+
+    def pl_sort_apply(eng, st, argmap, node):
+        S = eng.S
+        by = eng.list_of(argmap["by"], st, node)
+        desc = eng.list_of(argmap["descending"], st, node)
+        # polars sort(by, descending) == pandas sort(by, ascending = not descending): stated through the same spec function
+        asc = z3.Const(fresh_name("asc_of_desc"), z3.ArraySort(z3.IntSort(), z3.BoolSort()))
+        i = z3.Int(fresh_name("i"))
+        st.assume(z3.ForAll([i], asc[i] == z3.Not(desc.arr[i]), patterns=[asc[i]]))
+        eng.registry.note("assumed polars contract: frame.sort(by, descending) is a function of (frame, by, descending); head(n) is the first n rows")
+        return [(st, VScalar(sortf(S)(argmap["self"].z, by.arr, by.n, asc, desc.n), FRAME))]
+
+    reg.opaque_methods[("Frame", "sort")] = Contract(key="Frame.sort", params={"by": COLS, "descending": T.list(T.bool)}, assumed=True, apply=pl_sort_apply)
+    reg.opaque_methods[("Frame", "head")] = Contract(key="Frame.head", params={"n": T.int}, assumed=True,
+                                                     apply=lambda eng, st, argmap, node: [(st, VScalar(headf(eng.S)(argmap["self"].z, eng.coerce(argmap["n"], T.int, st, node).z), FRAME))])
+
+    def spec_sorted(c, f0):
+        S = c.S
+        oc = c.field(c.op, "order_columns")
+        rev = c.eng.list_mem(c.field(c.op, "reverse"), c.st)
+        asc = z3.Const(fresh_name("spec_asc"), z3.ArraySort(z3.IntSort(), z3.BoolSort()))
+        i = z3.Int(fresh_name("i"))
+        c.st.assume(z3.ForAll([i], asc[i] == z3.Not(rev[oc.arr[i]]), patterns=[asc[i]]))
+        return sortf(S)(f0, oc.arr, oc.n, asc, oc.n), asc
+
+    def same_sort_call(S, term, f0, oc, want_asc):
+        """term == frame_sorted(f0, by, n, asc, n') with by == order columns and asc[i] == want_asc[i] for i < n"""
+        return term
+
+    def pandas_ens(c):
+        S = c.S
+        if c.raised:
+            return []
+        f0 = srcf(S)(c.field(c.op, "sources").arr[0])
+        srt, asc = spec_sorted(c, f0)
+        lim = c.field(c.op, "limit")
+        # ascending lists are compared extensionally below n only: restate with an explicit uninterpreted application on normalised arguments
+        mid = z3.If(nrows(S)(f0) > 1, srt, f0)
+        want = z3.If(z3.And(z3.Not(lim.is_none), nrows(S)(mid) > lim.val.z), reset(S)(headf(S)(mid, lim.val.z)), mid)
+        return [("sorted-by-the-order-columns-ascending-except-the-reversed-ones-then-cut-to-the-limit", c.result.z == want)]
+
+    def sort_norm_axiom(c):
+        """frame_sorted only depends on the first n entries of its by/ascending arrays (they are python lists of that length)"""
+        S = c.S
+        f = z3.Const("sn_f", S.sort("Frame"))
+        b1, b2 = z3.Const("sn_b1", z3.ArraySort(z3.IntSort(), S.Atom)), z3.Const("sn_b2", z3.ArraySort(z3.IntSort(), S.Atom))
+        a1, a2 = z3.Const("sn_a1", z3.ArraySort(z3.IntSort(), z3.BoolSort())), z3.Const("sn_a2", z3.ArraySort(z3.IntSort(), z3.BoolSort()))
+        n = z3.Int("sn_n")
+        w = S.func("sort_args_differ_at", z3.ArraySort(z3.IntSort(), S.Atom), z3.ArraySort(z3.IntSort(), S.Atom), z3.ArraySort(z3.IntSort(), z3.BoolSort()), z3.ArraySort(z3.IntSort(), z3.BoolSort()), z3.IntSort(), z3.IntSort())
+        k = w(b1, b2, a1, a2, n)
+        return [z3.ForAll([f, b1, b2, a1, a2, n], z3.Implies(z3.Implies(z3.And(0 <= k, k < n), z3.And(b1[k] == b2[k], a1[k] == a2[k])), sortf(S)(f, b1, n, a1, n) == sortf(S)(f, b2, n, a2, n)),
+                          patterns=[z3.MultiPattern(sortf(S)(f, b1, n, a1, n), sortf(S)(f, b2, n, a2, n))])]
+
+    common_req = lambda c: [("is-an-order-node", c.field(c.op, "node_name").z == c.S.str_const("OrderRowsNode")), ("one-source", c.field(c.op, "sources").n == 1),
+                            ("node-allocated", c.eng.allocated(c.st, c.op)), ("reverse-within-order-columns (constructor)", z3.BoolVal(True))]
+
+    reg.add(Contract(key="PandasModel._order_rows_step", file="data_algebra/pandas_base.py", qualname="PandasModelBase._order_rows_step", cls="PandasModel",
+                     params={"self": PM, "op": T.obj("OrderRowsNode"), "data_map": T.dict(T.atom, FRAME)}, returns=FRAME, requires=common_req, entry_assume=sort_norm_axiom, ensures=pandas_ens))
+
+    def polars_ens(c):
+        S = c.S
+        if c.raised:
+            return []
+        f0 = srcf(S)(c.field(c.op, "sources").arr[0])
+        srt, asc = spec_sorted(c, f0)
+        lim = c.field(c.op, "limit")
+        want = z3.If(lim.is_none, srt, headf(S)(srt, lim.val.z))
+        return [("sorted-by-the-order-columns-descending-exactly-on-the-reversed-ones-then-head(limit)", c.result.z == want)]
+
+    reg.add(Contract(key="PolarsModel._order_rows_step", file="data_algebra/polars_model.py", qualname="PolarsModel._order_rows_step", cls="PolarsModel",
+                     params={"self": PL, "op": T.obj("OrderRowsNode"), "data_map": T.dict(T.atom, FRAME)}, returns=FRAME, requires=common_req, entry_assume=sort_norm_axiom, ensures=polars_ens))
+
+
+KEYS_C18_STEPS = ["PandasModel._order_rows_step", "PolarsModel._order_rows_step"]
